@@ -9,21 +9,114 @@ from ..core import Case
 
 ID = 'C08'
 MANIFEST = {
-    'text': ('Coq theorem C08_asc_slice_correct about the kernel util.slice_to_ascending_slice REGENERATED from /repo on every run: for every slice key and axis '
-             'length the ascending slice used by drop/mask/assign denotes exactly the key positions in ascending order (unbounded, by arithmetic proof); '
-             'kernel-level exhaustive-grid correspondence of the regenerated kernels with the implementation.'),
-    'note': ('trusted: Coq kernel, py2v translator (validated per run on an exhaustive grid), PyDyn dynamic-value semantics, harness. '
-             'Partial: the block-walking assign/drop/mask algorithms above the kernel are covered by API-level correspondence, not yet by a refinement theorem.'),
+    'text': ('Coq refinement theorems M = S for EVERY block layout (unbounded: any number / width / 1-D-2-D mix of blocks, any key, by induction over the '
+             'block list and the per-block runs of addressed positions) between faithful models of the block walks of type_blocks.py and cell-map '
+             'specifications on the flattened frame: C08_drop_any_layout (_drop_blocks: exactly the unaddressed columns, in order, dtype kept), '
+             'C08_mask_any_layout (_mask_blocks: True exactly at the addressed columns), C08_astype_any_layout (_astype_blocks: only addressed dtypes '
+             'change), C08_assign_unit_any_layout (_assign_from_iloc_by_unit, column part: exactly the addressed columns replaced, the r-th addressed '
+             'column by value column r, every other column identical with its dtype), C08_insert_any_layout (Frame._insert). The key conversion inside '
+             'the models is the kernel util.slice_to_ascending_slice REGENERATED from /repo on every run (C08_asc_slice_correct, '
+             'C08_model_uses_regenerated_kernel) and the retain_key_order / key_to_ascending_key decisions are constants regenerated from the AST '
+             '(Gen/Gen_c08.v): changing either breaks the proofs before any case runs. C08_drop_exact / C08_set_exact / C08_assign_exact read the '
+             'specifications position by position. Refuted/C08.v: vm_compute witnesses that the guard of the theorems is necessary (known findings). '
+             'Correspondence: the models (result columns, dtypes AND block layout, error class) and the specifications are evaluated inside Coq on '
+             'the inputs the implementation ran on: Frame/Series assign, drop, mask, astype, relabel, rename, insert_before/after through '
+             'iloc/loc/getitem/bloc forms, every selector kind, element/tuple/1-D/2-D array/Series/Frame/apply values, every block layout of <= 4 columns; '
+             'the receiver is snapshotted before/after every call.'),
+    'note': ('trusted: Coq kernel; the hand-written models SF/BlocksUpdate.v, SF/UpdateFrame.v (tied to /repo by the correspondence cases of the run and by '
+             'the regenerated kernels/constants); py2v translator + PyDyn semantics for the regenerated kernels; harness; NumPy (row keys, np.delete, '
+             'a[k] = v, astype, broadcasting, np.sort are not modelled: rows are a function mapped over the columns, broadcasting is done by NumPy in '
+             'the harness). Partial: assign by blocks (Frame values, get_block_match), the bloc forms, Series operations, relabel/rename and the label '
+             'alignment of Series/Frame values have specification-level checks (impl vs S) but no implementation-model theorem; the dtype of an '
+             'ASSIGNED column is compared with the model (resolve_dtype, regenerated) but is not part of the specification (C07). The refinement '
+             'theorems carry the guard walk_dom (list keys hold non-negative, pairwise different positions; slice step <> 0) and "at least one block".'),
+    'technique': 'refinement proof (model of the block walk = specification on the flattened columns, for all layouts) + regenerated kernels/constants + differential correspondence evaluated in Coq',
 }
 PROPERTY_FILES = ['Properties/C08.v']
 REFUTED_FILES = ['Refuted/C08.v']
-MODEL_FILES = ['SF/PyDyn.v', 'Gen/Gen_util.v', 'Gen/Gen_type_blocks.v', 'SF/UpdateFrame.v']
-TRANSLATED = ['slice_to_ascending_slice', 'cols_to_slice']
-RULE = ('kernel stratum: exhaustive grid of slices (start/stop in None,-R..R; step in None,-3..3 without 0) x size 0..R '
-        'through util.slice_to_ascending_slice called directly, compared with the regenerated Gallina definition; '
-        'a case is non-trivial when the key has a negative step (the function is the identity otherwise); distinct = distinct (key,size)')
-ASSUMPTIONS = ['Python int = Z, // and % = Z.div / Z.modulo (floor)']
+MODEL_FILES = ['SF/PyDyn.v', 'Gen/Gen_util.v', 'Gen/Gen_type_blocks.v', 'Gen/Gen_c08.v', 'SF/UpdateFrame.v']
+TRANSLATED = ['slice_to_ascending_slice', 'cols_to_slice', 'resolve_dtype']
+RULE = ('exhaustive small spaces first: every block layout (zoo.layouts_for) of every prefix (0..4 columns) of three dtype patterns x EVERY subset of the '
+        'columns as a key, on 3-row frames, for drop / mask / assign(unit) / astype; on one to three layouts per width additionally every integer, the '
+        'deduplicated grid of all slices with start/stop in None,-R..R and step in None,+-1..3 (R=3 quick, 6 thorough; the thorough tier uses every layout), '
+        'every duplicate-free list / integer array (sampled above 20), lists with negative positions, and a sweep of row keys (None, null slice, int, '
+        'negative int, slice, negative-step slice, list, negative list, Boolean array, empty list); values: element of five kinds, arrays of the '
+        'selection shape, 1-D array along the columns, tuple, Series / Frame with reordered, partially overlapping and foreign labels (default and '
+        'explicit fill_value), one-axis-disjoint Frames, functions through apply; bloc keys as Boolean array / reindexed Boolean Frame x element / array / '
+        'Frame / coordinate Series; loc and getitem forms are derived from the positional key (labels, label slices, Boolean arrays, reordered Boolean '
+        'Series); Series: every key kind incl. the slice grid on lengths 0..4; relabel / rename / insert_before / insert_after on Frame and Series; a '
+        'malformed stream (out-of-range positions, absent labels, wrong mask length, step 0, wrong value shape: must raise, receiver untouched); a seeded '
+        'random stream of 3..7-column mixed-dtype frames; kernel strata: util.slice_to_ascending_slice and TypeBlocks._cols_to_slice on exhaustive grids '
+        'against the regenerated Gallina. A case is non-trivial when the key addresses at least one cell; distinct = distinct (call, frame, layout, key, value).')
+ASSUMPTIONS = ['Python int = Z, // and % = Z.div / Z.modulo (floor)',
+               'index and column labels are unique strings (C02); label -> position translation of loc/getitem keys is C04\'s business: the harness derives '
+               'label keys from positional ones',
+               'an unlabelled array value is paired with the addressed columns in ASCENDING position order and with the row key in key order (what '
+               'NumPy does after the column key was made ascending); arrays are only generated with ascending column keys, because the property does not '
+               'fix the pairing otherwise',
+               'labelled values: an addressed cell whose label the value lacks receives fill_value through iloc/loc/getitem and keeps its value through bloc',
+               'mask does not propagate the name (documented in series.py:2166); names are compared for every other interface',
+               'oracle conv_val for astype cells: int/bool -> float, bool -> int, anything -> object',
+               'Frame.drop with a column key on a Frame without blocks is deliberately rejected (IndexError) and not generated']
+TRUSTED = ['NumPy broadcasting of an unlabelled value to the selection shape (np.broadcast_to in the harness)',
+           'util.dtype_from_element called directly to obtain the dtype of the assigned value (input of the assign model)']
 EXHAUSTIVE = {'quick': False, 'thorough': False}
+
+# ---------------------------------------------------------------------------------------------- regenerated decision table
+def generate(repo):
+    """Fail-closed extraction (Python ast) of the decisions the block-walk models hinge on, regenerated on every run:
+    which walks ask _key_to_block_slices for ASCENDING targets (retain_key_order=False) and that FrameAssignILoc makes
+    the column key ascending (key_to_ascending_key on key[1]) before the by-unit / by-blocks walks, which retain key order."""
+    import ast
+    import os
+
+    def parse(rel):
+        with open(os.path.join(repo, rel)) as fh:
+            return ast.parse(fh.read())
+
+    def method(tree, cls, name):
+        for node in tree.body:
+            if isinstance(node, ast.ClassDef) and node.name == cls:
+                for sub in node.body:
+                    if isinstance(sub, ast.FunctionDef) and sub.name == name:
+                        return sub
+        raise ValueError(f'{cls}.{name} not found')
+
+    def retain_flag(fn):
+        calls = [c for c in ast.walk(fn) if isinstance(c, ast.Call) and isinstance(c.func, ast.Attribute)
+                 and c.func.attr == '_key_to_block_slices' and isinstance(c.func.value, ast.Name) and c.func.value.id == 'self']
+        if len(calls) != 1:
+            raise ValueError(f'{fn.name}: expected exactly one self._key_to_block_slices call, found {len(calls)}')
+        kws = {k.arg: k.value for k in calls[0].keywords}
+        if 'retain_key_order' not in kws:
+            return True                                           # the default of the parameter
+        v = kws['retain_key_order']
+        if not (isinstance(v, ast.Constant) and isinstance(v.value, bool)):
+            raise ValueError(f'{fn.name}: retain_key_order is not a literal')
+        return v.value
+
+    tb = parse('static_frame/core/type_blocks.py')
+    default = method(tb, 'TypeBlocks', '_key_to_block_slices').args.defaults
+    if not (len(default) == 1 and isinstance(default[0], ast.Constant) and default[0].value is True):
+        raise ValueError('_key_to_block_slices: default of retain_key_order is not True')
+    flags = {name: retain_flag(method(tb, 'TypeBlocks', name))
+             for name in ('_drop_blocks', '_mask_blocks', '_astype_blocks', '_assign_from_iloc_by_unit', '_assign_from_iloc_by_blocks')}
+    # FrameAssignILoc.__call__: key_to_ascending_key(self.key[1], ...)
+    fr = parse('static_frame/core/frame.py')
+    call = method(fr, 'FrameAssignILoc', '__call__')
+    sorts = False
+    for c in ast.walk(call):
+        if isinstance(c, ast.Call) and isinstance(c.func, ast.Name) and c.func.id == 'key_to_ascending_key' and c.args:
+            a0 = c.args[0]
+            if (isinstance(a0, ast.Subscript) and isinstance(a0.value, ast.Attribute) and a0.value.attr == 'key'
+                    and isinstance(a0.slice, ast.Constant) and a0.slice.value == 1):
+                sorts = True
+    b = lambda x: 'true' if x else 'false'
+    text = ('(* GENERATED on every run by tools/sfv/props/c08.py:generate from static_frame/core/type_blocks.py and frame.py -- do not edit *)\n'
+            + ''.join(f'Definition retain_key_order{name} : bool := {b(v)}.\n' for name, v in flags.items())
+            + f'Definition assign_iloc_column_key_made_ascending : bool := {b(sorts)}.\n')
+    return {'Gen/Gen_c08.v': text}
+
 
 # ---------------------------------------------------------------------------------------------- base data
 ROW_LABELS = ('x', 'y', 'z', 'w', 'v')
@@ -60,6 +153,7 @@ POOLS = {
     'I': (I8, I8, I8, I8),          # every composition is a legal layout
     'M': (I8, I8, F8, B1),
     'S': (U2, I8, I8, OB),
+    'F': (F8, F8, F8, I8),          # a multi-column block that already has the astype target dtype, followed by one that has not
 }
 
 
@@ -254,35 +348,46 @@ def res_lit(out, err, printer):
 
 
 # ---------------------------------------------------------------------------------------------- drop / mask
-def frame_universe(ctx):
-    """(pool name, dtypes, layout, representative) of the exhaustive strata: every layout of every prefix of every pool;
-    `representative` marks three layouts per width (all 1-D, fewest blocks, a mixed one) that also get the wide key set
-    in the quick tier"""
+def frame_universe(ctx, extra_pools=()):
+    """(pool name, dtypes, layout, level) of the exhaustive strata: every layout of every prefix of every pool.
+    level (quick tier): 'full' = every key kind incl. the slice grid and the row-key sweep (one layout per width),
+    'mid' = every key kind but slices (two more layouts per width), 'masks' = every subset of the columns (all the
+    other layouts).  The thorough tier uses 'full' everywhere."""
     for pname, dts in POOLS.items():
+        if pname == 'F' and ctx.tier == 'quick' and 'F' not in extra_pools:
+            continue
         for m in range(0, 5):
-            if pname != 'I' and m < 2:
+            if pname != 'I' and (m < 2 or (ctx.tier == 'quick' and m < 4)):
                 continue
             lays = list(zoo.layouts_for(dts[:m]))
-            reps = {lays[0], lays[-1], lays[len(lays) // 2]} if pname == 'I' else {lays[len(lays) // 2]}
-            for layout in lays:
-                yield pname, dts[:m], layout, layout in reps
+            for i, layout in enumerate(lays):
+                if ctx.tier == 'thorough':
+                    level = 'full'
+                elif pname == 'I' and i == len(lays) // 2:
+                    level = 'full'
+                elif pname == 'I' and i in (0, len(lays) - 1):
+                    level = 'mid'
+                elif pname == 'S' and i % 2:
+                    continue
+                else:
+                    level = 'masks'
+                yield pname, dts[:m], layout, level
 
 
 ROW_KEYS = [NONE, ALL, K('int', 1), K('int', -1), K('slice', (1, None, None)), K('slice', (None, None, -2)),
             K('list', [2, 0]), K('list', [-1, 0]), K('mask', [True, False, True]), K('list', [])]
 
 
-def key_plan(ctx, m, rep):
+def key_plan(ctx, m, level):
     """(column key, [row keys]) pairs for one frame: every subset of the columns (as a Boolean mask) on EVERY layout;
     the other key kinds (they differ only in how the key becomes ascending positions, which does not depend on the
-    layout) on every layout in the thorough tier and on the representative layouts in the quick tier"""
+    layout) on every layout in the thorough tier and on the 'full' / 'mid' layouts in the quick tier"""
     rot = 0
-    wide = rep or ctx.tier == 'thorough'
-    for ck in [NONE] + small_keys(m, ctx.tier, ctx.rng, slices=wide):
-        if not wide and ck.kind not in ('mask', 'none', 'all'):
+    for ck in [NONE] + small_keys(m, ctx.tier, ctx.rng, slices=(level == 'full')):
+        if level == 'masks' and ck.kind not in ('mask', 'none', 'all'):
             continue
         rot += 1
-        if wide and (ck.kind in ('none', 'all') or (ck.kind == 'list' and len(ck.v) == 1)):
+        if level == 'full' and ck.kind in ('none', 'all'):
             yield ck, ROW_KEYS
         elif ctx.tier == 'thorough':
             yield ck, [NONE, ROW_KEYS[rot % len(ROW_KEYS)]]
@@ -305,12 +410,12 @@ def classify(op, ck, rk, m, nrows):
 
 def drop_mask_cases(ctx):
     nrows = 3
-    for pname, dts, layout, rep in frame_universe(ctx):
+    for pname, dts, layout, level in frame_universe(ctx):
         m = len(dts)
         f = build_frame(dts, nrows, layout)
         flit = mframe_lit(f)
         oflit = oframe_lit(f)
-        for ck, rks in key_plan(ctx, m, rep):
+        for ck, rks in key_plan(ctx, m, level):
             for rk in rks:
                 for op in ('drop', 'mask'):
                     if op == 'mask' and rk.kind == 'none' and ck.kind == 'none':
@@ -378,6 +483,7 @@ def loc_key(k, labels, reorder=False):
 
 # ---------------------------------------------------------------------------------------------- assign
 F_BOOLSORT = 'C08-assign-iloc-boolean-array-column-key'
+F_DISJOINT = 'C08-assign-frame-value-one-axis-disjoint'
 
 ELEMS = [-5, 2.5, 'zz', None, True, 0]
 
@@ -463,12 +569,12 @@ def assign_tags(form, ck, rk, m, asarray_mask):
 def assign_unit_cases(ctx):
     nrows = 3
     rot = 0
-    for pname, dts, layout, rep in frame_universe(ctx):
+    for pname, dts, layout, level in frame_universe(ctx):
         m = len(dts)
         f = build_frame(dts, nrows, layout)
         flit, oflit = mframe_lit(f), oframe_lit(f)
-        for ck, rks in key_plan(ctx, m, rep):
-            for rk in rks[:3]:
+        for ck, rks in key_plan(ctx, m, level):
+            for rk in (rks[:1] if ctx.tier == 'quick' else rks[:3]):
                 cps, rps = ck.positions(m), rk.positions(nrows)
                 if ck.kind == 'none':
                     cps = list(range(m))
@@ -478,7 +584,10 @@ def assign_unit_cases(ctx):
                     continue
                 rot += 1
                 key = rk.py() if ck.kind == 'none' else (rk.py(), ck.py())
-                for vname, value, aval, sliceable in unit_values(rk, ck, rps, sorted(cps), rot):
+                vals = list(unit_values(rk, ck, rps, sorted(cps), rot))
+                if ctx.tier == 'quick' and len(vals) > 2:
+                    vals = [vals[0], vals[1 + rot % (len(vals) - 1)]]
+                for vname, value, aval, sliceable in vals:
                     if vname != 'element' and ck.kind in ('list', 'array') and sorted(cps) != cps:
                         continue    # the pairing of an unlabelled array with a non-ascending key is not fixed by the property
                     before = snapshot(f)
@@ -503,11 +612,789 @@ def assign_unit_cases(ctx):
                                tags=tags, nontrivial=bool(cps) and bool(rps))
 
 
+# ---------------------------------------------------------------------------------------------- assign: labelled values, forms
+def few_layouts(dts):
+    lays = list(zoo.layouts_for(dts))
+    return list(dict.fromkeys([lays[0], lays[len(lays) // 2], lays[-1]]))
+
+
+def label_frames(ctx, ms=(2, 3, 4)):
+    for pname in ('I', 'M'):
+        for m in ms:
+            dts = POOLS[pname][:m]
+            for layout in few_layouts(dts):
+                yield pname, dts, layout
+
+
+def form_call(f, iface, form, rk, ck, rlabels, clabels, reorder=False):
+    """the selector object `f.<iface>.<form>[key]` for a positional (rk, ck); None when the form cannot express the key"""
+    obj = getattr(f, iface)
+    if form == 'iloc':
+        key = rk.py() if ck.kind == 'none' else (rk.py(), ck.py())
+        return (lambda: obj.iloc[key]), f'f.{iface}.iloc[{key!r}]'
+    if form == 'loc':
+        if ck.kind == 'none':
+            if rk.kind == 'none' or (rk.kind == 'slice' and loc_key(rk, rlabels) is None):
+                return None
+            key = loc_key(rk, rlabels, reorder)
+        else:
+            if (rk.kind == 'slice' and loc_key(rk, rlabels) is None) or (ck.kind == 'slice' and loc_key(ck, clabels) is None):
+                return None
+            if rk.kind == 'none':
+                return None
+            key = (loc_key(rk, rlabels, reorder), loc_key(ck, clabels, reorder))
+        return (lambda: obj.loc[key]), f'f.{iface}.loc[{key!r}]'
+    if form == 'getitem':
+        if rk.kind != 'none' or ck.kind == 'none' or (ck.kind == 'slice' and loc_key(ck, clabels) is None):
+            return None
+        key = loc_key(ck, clabels, reorder)
+        return (lambda: obj[key]), f'f.{iface}[{key!r}]'
+    raise ValueError(form)
+
+
+def labelled_value(kind, f, rps, cps, rot):
+    """a Series / Frame value whose labels partially overlap the target's, reordered, plus one foreign label;
+    returns (python value, Coq aval)"""
+    import static_frame as sf
+    rl = [f.index.values[i] for i in rps]
+    cl = [f.columns.values[j] for j in cps]
+    if kind == 'series_rows':
+        idx = (rl[1:][::-1] if rot % 2 else rl[::-1]) + ['q']
+        vals = [500 + i for i in range(len(idx))]
+        return sf.Series(vals, index=idx), f'(ARows {lit.vlist(idx)} {lit.vlist(vals)})'
+    if kind == 'series_cols':
+        idx = (cl[1:][::-1] if rot % 2 else cl[::-1]) + ['q']
+        vals = [600 + i for i in range(len(idx))]
+        return sf.Series(vals, index=idx), f'(ACols {lit.vlist(idx)} {lit.vlist(vals)})'
+    if kind in ('frame', 'frame_norows', 'frame_nocols'):
+        ridx = (rl[1:][::-1] if rot % 2 and len(rl) > 1 else rl[::-1]) + ['q']
+        cidx = (cl[::-1] if rot % 3 or len(cl) < 2 else cl[:-1][::-1]) + ['k']
+        if kind == 'frame_norows':
+            ridx = ['q', 'p']
+        if kind == 'frame_nocols':
+            cidx = ['k']
+        cols = [[700 + 10 * j + i for i in range(len(ridx))] for j in range(len(cidx))]
+        fr = sf.Frame.from_fields(cols, index=ridx, columns=cidx)
+        return fr, f'(AFrame {lit.vlist(ridx)} {lit.vlist(cidx)} {lit.lst([lit.vlist(c) for c in cols])})'
+    raise ValueError(kind)
+
+
+def container_aval(v):
+    import static_frame as sf
+    if isinstance(v, sf.Series):
+        return lit.vlist(lit.labels(v.index)), lit.vlist(lit.array_vals(v.values))
+    raise ValueError
+
+
+def assign_labelled_cases(ctx):
+    import static_frame as sf
+    nrows = 3
+    rot = 0
+    rkeys_multi = [NONE, ALL, K('list', [2, 0]), K('slice', (1, None, None)), K('mask', [True, False, True]), K('list', [1])]
+    for pname, dts, layout in label_frames(ctx):
+        m = len(dts)
+        f = build_frame(dts, nrows, layout)
+        oflit = oframe_lit(f)
+        rlabels, clabels = list(f.index.values), list(f.columns.values)
+        ckeys_multi = [ALL, K('list', list(range(m))[::-1]), K('list', [m - 1]), K('slice', (1, None, None)),
+                       K('mask', [j % 2 == 0 for j in range(m)]), K('array', [0, m - 1])]
+        plans = []
+        for rk in rkeys_multi:
+            for j in (0, m - 1):
+                plans.append(('series_rows', rk, K('int', j)))
+        for ck in ckeys_multi:
+            for i in (0, -1):
+                plans.append(('series_cols', K('int', i), ck))
+        for rk in rkeys_multi:
+            for ck in ckeys_multi[rot % 2::2]:
+                plans.append(('frame', rk, ck))
+        plans.append(('frame_norows', ALL, ALL))
+        plans.append(('frame_nocols', ALL, ALL))
+        plans.append(('frame_norows', K('list', [2, 0]), K('list', [m - 1, 0])))
+        plans.append(('frame_nocols', K('list', [2, 0]), K('list', [m - 1, 0])))
+        for vkind, rk, ck in plans:
+            rps = rk.positions(nrows) if rk.kind != 'none' else list(range(nrows))
+            cps = ck.positions(m) if ck.kind != 'none' else list(range(m))
+            if not rps or not cps:
+                continue
+            for form in ('iloc', 'loc', 'getitem'):
+                sel = form_call(f, 'assign', form, rk, ck, rlabels, clabels, reorder=(rot % 2 == 1))
+                if sel is None:
+                    continue
+                rot += 1
+                if ctx.tier == 'quick' and rot % 2 and form != 'getitem' and vkind in ('series_rows', 'series_cols', 'frame'):
+                    continue
+                fn, text = sel
+                # the value is aligned to the target in KEY order for rows and in ascending order for columns; labels decide
+                value, aval = labelled_value(vkind, f, rps, sorted(cps), rot)
+                fill = (np.nan, 'VNaN') if rot % 3 else (-1, '(VInt (-1))')
+                before = snapshot(f)
+                out, err = call(lambda: fn()(value, fill_value=fill[0]))
+                after = snapshot(f)
+                tags = assign_tags(form, ck, rk, m, form == 'iloc' and ck.kind == 'mask')
+                tags['value'] = vkind
+                if vkind in ('frame_norows', 'frame_nocols') and 'finding' not in tags:
+                    tags['finding'] = F_DISJOINT
+                ctx.count(f'assign:value={vkind}', f'assign:form={form}', 'outcome:' + ('ok' if err is None else lit.err_class(err)))
+                sterm = f'S_frame_assign_ok {oflit} {rk.ocoq()} {ck.ocoq()} {aval} {fill[1]} {oframe_lit(out)}' if err is None else 'false'
+                yield Case(f'api:frame.assign.{form}(labelled)',
+                           {'pool': pname, 'columns': m, 'rows': nrows, 'layout': zoo.layout_str(layout), 'call': text + '(value, fill_value=%r)' % (fill[0],),
+                            'value': repr(value.to_pairs() if hasattr(value, 'to_pairs') else value), 'row_key': rk.desc(), 'column_key': ck.desc(),
+                            'observed': 'raises ' + type(err).__name__ if err is not None else out.values.tolist()},
+                           s=sterm, py_fail=None if before == after else 'receiver changed by ' + text,
+                           tags=tags)
+        # ---- apply: the function sees the selection, its result is assigned back aligned by label
+        funcs = [('double', lambda x: x * 2), ('reversed', lambda x: x.iloc[::-1] if hasattr(x, 'iloc') else x),
+                 ('tail', lambda x: x.iloc[1:] if hasattr(x, 'iloc') else x)]
+        if pname != 'I':
+            continue
+        for rk, ck in [(K('int', 1), K('int', 0)), (ALL, K('int', m - 1)), (K('list', [2, 0]), K('int', 0)), (K('int', 0), ALL),
+                       (K('int', -1), K('list', list(range(m))[::-1])), (ALL, ALL), (K('list', [2, 0]), K('list', [m - 1, 0])), (NONE, K('list', [0]))]:
+            rps = rk.positions(nrows) if rk.kind != 'none' else list(range(nrows))
+            cps = ck.positions(m) if ck.kind != 'none' else list(range(m))
+            for form in ('iloc', 'loc', 'getitem'):
+                sel = form_call(f, 'assign', form, rk, ck, rlabels, clabels)
+                if sel is None:
+                    continue
+                fn, text = sel
+                for fname, func in funcs:
+                    # what the function returns for the selection (selection itself is property C04's business)
+                    picked = f.iloc[rk.py() if rk.kind != 'none' else slice(None), ck.py() if ck.kind != 'none' else slice(None)]
+                    value = func(picked)
+                    if isinstance(value, sf.Series):
+                        kind = 'ARows' if ck.kind == 'int' else 'ACols'
+                        aval = f'({kind} {lit.vlist(lit.labels(value.index))} {lit.vlist(lit.array_vals(value.values))})'
+                    elif isinstance(value, sf.Frame):
+                        aval = (f'(AFrame {lit.vlist(lit.labels(value.index))} {lit.vlist(lit.labels(value.columns))} '
+                                f'{lit.lst([lit.vlist(lit.array_vals(c)) for c in frame_columns(value)])})')
+                    else:
+                        aval = aval_elem(value)
+                    before = snapshot(f)
+                    out, err = call(lambda: fn().apply(func))
+                    after = snapshot(f)
+                    tags = assign_tags(form, ck, rk, m, False)
+                    tags['value'] = 'apply:' + fname
+                    ctx.count('assign:value=apply', f'assign:form={form}', 'outcome:' + ('ok' if err is None else lit.err_class(err)))
+                    sterm = f'S_frame_assign_ok {oflit} {rk.ocoq()} {ck.ocoq()} {aval} VNaN {oframe_lit(out)}' if err is None else 'false'
+                    yield Case(f'api:frame.assign.{form}.apply',
+                               {'pool': pname, 'columns': m, 'rows': nrows, 'layout': zoo.layout_str(layout), 'call': text + f'.apply({fname})',
+                                'row_key': rk.desc(), 'column_key': ck.desc(),
+                                'observed': 'raises ' + type(err).__name__ if err is not None else out.values.tolist()},
+                               s=sterm, py_fail=None if before == after else 'receiver changed by ' + text, tags=tags)
+
+
+def assign_forms_cases(ctx):
+    """unlabelled values through the loc / getitem forms (same positions as the iloc stratum, addressed by label)"""
+    nrows = 3
+    rot = 0
+    for pname, dts, layout in label_frames(ctx, ms=(1, 3, 4)):
+        m = len(dts)
+        f = build_frame(dts, nrows, layout)
+        oflit = oframe_lit(f)
+        rlabels, clabels = list(f.index.values), list(f.columns.values)
+        ckeys = [k for k in small_keys(m, 'quick', ctx.rng, slices=True) if not has_negative(k)]
+        if ctx.tier == 'quick':
+            ckeys = ckeys[::3]
+        for ck in [NONE] + ckeys:
+            rot += 1
+            rk = ROW_KEYS[rot % len(ROW_KEYS)]
+            if has_negative(rk):
+                rk = ALL
+            cps = ck.positions(m) if ck.kind != 'none' else list(range(m))
+            rps = rk.positions(nrows) if rk.kind != 'none' else list(range(nrows))
+            if cps is None or rps is None:
+                continue
+            for form in ('loc', 'getitem'):
+                sel = form_call(f, 'assign', form, rk, ck, rlabels, clabels, reorder=(rot % 2 == 1))
+                if sel is None:
+                    continue
+                fn, text = sel
+                vals = list(unit_values(rk, ck, rps, sorted(cps), rot))
+                for vname, value, aval, sliceable in vals[:2]:
+                    if vname != 'element' and ck.kind in ('list', 'array') and sorted(cps) != cps:
+                        continue
+                    before = snapshot(f)
+                    out, err = call(lambda: fn()(value))
+                    after = snapshot(f)
+                    tags = assign_tags(form, ck, rk, m, False)
+                    tags['value'] = vname
+                    ctx.count(f'assign:form={form}', f'assign:value={vname}', 'outcome:' + ('ok' if err is None else lit.err_class(err)))
+                    sterm = f'S_frame_assign_ok {oflit} {rk.ocoq()} {ck.ocoq()} {aval} VNaN {oframe_lit(out)}' if err is None else 'false'
+                    yield Case(f'api:frame.assign.{form}(unit)',
+                               {'pool': pname, 'columns': m, 'rows': nrows, 'layout': zoo.layout_str(layout), 'call': text + '(value)',
+                                'value': vname + ':' + repr(value if not isinstance(value, np.ndarray) else value.tolist()),
+                                'row_key': rk.desc(), 'column_key': ck.desc(),
+                                'observed': 'raises ' + type(err).__name__ if err is not None else out.values.tolist()},
+                               s=sterm, py_fail=None if before == after else 'receiver changed by ' + text, tags=tags,
+                               nontrivial=bool(cps) and bool(rps))
+
+
+F_BLOCBLOCK = 'C08-bloc-assign-coerces-whole-block'
+
+
+def bloc_tags(vname, kname, layout, kmask):
+    """finding class from the input: the key addresses some but not all columns of one multi-column block"""
+    tags = {'op': 'assign', 'form': 'bloc', 'value': vname, 'key': kname}
+    pos = 0
+    for w, _ in layout:
+        hit = [any(kmask[j]) for j in range(pos, pos + w)]
+        if any(hit) and not all(hit):
+            tags['finding'] = F_BLOCBLOCK
+        pos += w
+    return tags
+
+
+def assign_bloc_cases(ctx):
+    import static_frame as sf
+    nrows = 3
+    rot = 0
+    for pname, dts, layout in label_frames(ctx, ms=(1, 2, 4)):
+        m = len(dts)
+        f = build_frame(dts, nrows, layout)
+        oflit = oframe_lit(f)
+        rl, cl = list(f.index.values), list(f.columns.values)
+        patterns = [[[(i + j) % 2 == 0 for i in range(nrows)] for j in range(m)],
+                    [[j == m - 1 for i in range(nrows)] for j in range(m)],
+                    [[i == 1 and j == 0 for i in range(nrows)] for j in range(m)],
+                    [[False] * nrows for j in range(m)],
+                    [[True] * nrows for j in range(m)]]
+        for mask in patterns:          # mask[j][i]
+            karr = np.array(mask, dtype=bool).T.reshape(nrows, m)
+            keys = [('array', karr, mask)]
+            # a Boolean Frame key with reordered, partially overlapping labels: missing labels count as False
+            kr, kc = rl[::-1][:-1] + ['q'], cl[::-1] + ['k']
+            kf = sf.Frame.from_fields([[(mask[cl.index(c)][rl.index(r)] if c in cl and r in rl else True) for r in kr] for c in kc], index=kr, columns=kc)
+            eff = [[(mask[j][i] if rl[i] in kr else False) for i in range(nrows)] for j in range(m)]
+            keys.append(('frame', kf, eff))
+            for kname, key, eff_mask in keys:
+                full = np.arange(nrows * m, dtype=np.int64).reshape(nrows, m) + 900
+                values = [('element', ELEMS[rot % len(ELEMS)], [[ELEMS[rot % len(ELEMS)]] * nrows for _ in range(m)], eff_mask),
+                          ('array', full, [[int(full[i, j]) for i in range(nrows)] for j in range(m)], eff_mask)]
+                # a Frame value with partially overlapping labels: cells it does not hold stay as they are
+                vr, vc = rl[1:][::-1] + ['q'], cl[::-1][:max(1, m - 1)] + ['k']
+                vf = sf.Frame.from_fields([[800 + 10 * jj + ii for ii in range(len(vr))] for jj in range(len(vc))], index=vr, columns=vc)
+                vmat = [[(int(vf.loc[rl[i], cl[j]]) if (rl[i] in vr and cl[j] in vc) else None) for i in range(nrows)] for j in range(m)]
+                vmask = [[eff_mask[j][i] and vmat[j][i] is not None for i in range(nrows)] for j in range(m)]
+                values.append(('frame', vf, vmat, vmask))
+                # a Series as returned by a bloc selection: (row label, column label) -> value, any order
+                pairs = [((rl[i], cl[j]), 1000 + 10 * j + i) for j in range(m) for i in range(nrows) if eff_mask[j][i]][::-1]
+                if pairs:
+                    sv = sf.Series([v for _, v in pairs], index=sf.Index([k for k, _ in pairs], dtype=object))
+                    smat = [[1000 + 10 * j + i for i in range(nrows)] for j in range(m)]
+                    values.append(('series', sv, smat, eff_mask))
+                for vname, value, vmat_, emask in values:
+                    rot += 1
+                    before = snapshot(f)
+                    key_arg = key.copy() if isinstance(key, np.ndarray) else key    # a writeable array key is modified in place by the Frame-value path
+                    out, err = call(lambda: f.assign.bloc[key_arg](value))
+                    after = snapshot(f)
+                    ctx.count(f'assign:bloc-key={kname}', f'assign:value={vname}', 'outcome:' + ('ok' if err is None else lit.err_class(err)))
+                    klit = lit.lst([lit.lst([lit.b(x) for x in col]) for col in eff_mask])
+                    mlit = lit.lst([lit.lst([lit.b(x) for x in col]) for col in emask])
+                    vlit = lit.lst([lit.vlist(col) for col in vmat_])
+                    sterm = f'S_frame_bloc_ok {oflit} {klit} {mlit} {vlit} {oframe_lit(out)}' if err is None else 'false'
+                    yield Case('api:frame.assign.bloc',
+                               {'pool': pname, 'columns': m, 'rows': nrows, 'layout': zoo.layout_str(layout), 'call': f'f.assign.bloc[{kname} key](value)',
+                                'key': np.array(mask).T.tolist(), 'value': vname,
+                                'observed': 'raises ' + type(err).__name__ if err is not None else out.values.tolist()},
+                               s=sterm, py_fail=None if before == after else 'receiver changed by f.assign.bloc',
+                               tags=bloc_tags(vname, kname, layout, eff_mask),
+                               nontrivial=any(any(c) for c in emask))
+
+
+# ---------------------------------------------------------------------------------------------- drop / mask: label forms
+def drop_mask_forms_cases(ctx):
+    nrows = 3
+    rot = 0
+    for pname, dts, layout in label_frames(ctx, ms=(1, 3, 4)):
+        m = len(dts)
+        f = build_frame(dts, nrows, layout)
+        oflit = oframe_lit(f)
+        rlabels, clabels = list(f.index.values), list(f.columns.values)
+        ckeys = [k for k in small_keys(m, 'quick', ctx.rng, slices=True) if not has_negative(k)]
+        if ctx.tier == 'quick':
+            ckeys = ckeys[1::3]
+        for ck in [NONE] + ckeys:
+            rot += 1
+            rk = ROW_KEYS[rot % len(ROW_KEYS)]
+            if has_negative(rk):
+                rk = K('list', [2, 0])
+            for op in ('drop', 'mask'):
+                for form in ('loc', 'getitem'):
+                    sel = form_call(f, op, form, rk, ck, rlabels, clabels, reorder=(rot % 2 == 1))
+                    if sel is None or (op == 'mask' and rk.kind == 'none' and ck.kind == 'none'):
+                        continue
+                    fn, text = sel
+                    before = snapshot(f)
+                    out, err = call(fn)
+                    after = snapshot(f)
+                    tags = {'op': op, 'form': form, 'ckind': ck.kind, 'rkind': rk.kind}
+                    tags.update(classify(op, ck, rk, m, nrows))
+                    ctx.count(f'{op}:form={form}', 'outcome:' + ('ok' if err is None else lit.err_class(err)))
+                    obs = res_lit(out, err, oframe_lit)
+                    if op == 'drop':
+                        sterm = f'res_agree oframe_eqb (S_frame_drop {oflit} {rk.ocoq()} {ck.ocoq()}) {obs}'
+                    else:
+                        sterm = f'res_agree oframe_eqb_noname (S_frame_mask {oflit} {rk.ocoq()} {ck.ocoq()}) {obs}'
+                    yield Case(f'api:frame.{op}.{form}',
+                               {'pool': pname, 'columns': m, 'rows': nrows, 'layout': zoo.layout_str(layout), 'call': text,
+                                'row_key': rk.desc(), 'column_key': ck.desc(),
+                                'observed': 'raises ' + type(err).__name__ if err is not None else [lit.labels(out.index), lit.labels(out.columns), out.values.tolist() if out.size else []]},
+                               s=sterm, py_fail=None if before == after else 'receiver changed by ' + text, tags=tags)
+
+
+# ---------------------------------------------------------------------------------------------- astype
+F_ASTYPEBOOL = 'C08-astype-boolean-key'
+ASTYPE_TARGETS = [np.dtype('float64'), np.dtype(object), np.dtype('int64')]
+
+
+def astype_ok(src, dst):
+    """conversions inside the cell-conversion oracle conv_val"""
+    if dst == OB:
+        return True
+    if dst == F8:
+        return src in (I8, F8, B1)
+    if dst == I8:
+        return src in (I8, B1)
+    return False
+
+
+def astype_cases(ctx):
+    nrows = 3
+    for pname, dts, layout, level in frame_universe(ctx, extra_pools=('F',)):
+        m = len(dts)
+        if pname == 'S' and ctx.tier == 'quick':
+            continue
+        f = build_frame(dts, nrows, layout)
+        flit, oflit = mframe_lit(f), oframe_lit(f)
+        clabels = list(f.columns.values)
+        rot = 0
+        for ck, _ in key_plan(ctx, m, 'masks' if level == 'masks' else 'mid'):
+            if ck.kind == 'none' or has_negative(ck):
+                continue
+            if level == 'masks' and ck.kind == 'mask':
+                ck = K('list', [j for j, x in enumerate(ck.v) if x])     # every subset of the columns, as a list key
+            cps = ck.positions(m)
+            key = loc_key(ck, clabels)
+            if cps is None or (key is None and ck.kind == 'slice'):
+                continue
+            rot += 1
+            ok_targets = [d for d in ASTYPE_TARGETS if all(astype_ok(dts[j], d) for j in cps)]
+            if not (pname == 'F' or level != 'masks' or ctx.tier == 'thorough'):
+                ok_targets = [ok_targets[rot % len(ok_targets)]]
+            for dst, consolidate in [(d, c) for d in ok_targets for c in ((False, True) if ctx.tier == 'thorough' or rot % 4 == 0 else (False,))]:
+                before = snapshot(f)
+                out, err = call(lambda: f.astype[key](dst, consolidate_blocks=consolidate))
+                after = snapshot(f)
+                tags = {'op': 'astype', 'form': 'getitem', 'ckind': ck.kind}
+                if ck.kind == 'mask' and sum(ck.v) != 1:
+                    tags['finding'] = F_ASTYPEBOOL
+                elif m == 0:
+                    tags['finding'] = F_ZERO
+                ctx.count(f'astype:ck={ck.kind}', f'astype:to={dst}', 'outcome:' + ('ok' if err is None else lit.err_class(err)))
+                obs = res_lit(out, err, ofl_lit)
+                # the Boolean-key ValueError is raised in FrameAsType.__call__, above the block walk that M models
+                mterm = f'res_same ofl_eqb (M_frame_astype {flit} {ck.coq()} {lit.dtype(dst)}) {obs}' if not consolidate and tags.get('finding') != F_ASTYPEBOOL else None
+                sterm = f'res_agree of_eqb_ofl (S_frame_astype {oflit} {ck.coq()} {lit.dtype(dst)}) {obs}'
+                yield Case('api:frame.astype[key]',
+                           {'pool': pname, 'columns': m, 'layout': zoo.layout_str(layout), 'call': f'f.astype[{key!r}]({dst}, consolidate_blocks={consolidate})',
+                            'column_key': ck.desc(),
+                            'observed': 'raises ' + type(err).__name__ if err is not None else [str(d) for d in (a.dtype for a in frame_columns(out))]},
+                           m=mterm, s=sterm, py_fail=None if before == after else 'receiver changed by astype', tags=tags,
+                           nontrivial=bool(cps))
+        # whole frame: one dtype, and a mapping label -> dtype (only those labels change)
+        if m == 0 or level == 'masks':
+            continue
+        for spec_name, spec, cps, dst in ([('object', OB, list(range(m)), OB)] +
+                                          [('mapping', {clabels[j]: OB}, [j], OB) for j in (0, m - 1)]):
+            before = snapshot(f)
+            out, err = call(lambda: f.astype(spec))
+            after = snapshot(f)
+            ck = K('list', cps)
+            obs = res_lit(out, err, ofl_lit)
+            ctx.count('astype:whole-' + spec_name)
+            yield Case('api:frame.astype(dtypes)',
+                       {'pool': pname, 'columns': m, 'layout': zoo.layout_str(layout), 'call': f'f.astype({spec!r})',
+                        'observed': 'raises ' + type(err).__name__ if err is not None else [str(d) for d in (a.dtype for a in frame_columns(out))]},
+                       s=f'res_agree of_eqb_ofl (S_frame_astype {oflit} {ck.coq()} {lit.dtype(dst)}) {obs}',
+                       py_fail=None if before == after else 'receiver changed by astype', tags={'op': 'astype', 'form': 'call'})
+
+
+# ---------------------------------------------------------------------------------------------- insert / relabel / rename
+def tb_lit(fr):
+    return f'(build_tb {layout_lit(zoo.layout_of(fr))} {cols_lit(fr)})'
+
+
+def aligned_cells(container_col, container_index, target_index, fill):
+    lookup = dict(zip(container_index, container_col))
+    return [lookup.get(l, fill) for l in target_index]
+
+
+def insert_cases(ctx):
+    import static_frame as sf
+    nrows = 3
+    rot = 0
+    for pname, dts, layout in label_frames(ctx, ms=(1, 2, 4)):
+        m = len(dts)
+        f = build_frame(dts, nrows, layout)
+        flit, oflit = mframe_lit(f), oframe_lit(f)
+        rl, cl = list(f.index.values), list(f.columns.values)
+        containers = []
+        s_same = sf.Series([1.5, 2.5, 3.5], index=rl, name='n1')
+        s_part = sf.Series([7, 8, 9], index=[rl[2], 'q', rl[0]], name='n2')
+        containers += [('series', s_same, True), ('series-partial', s_part, False)]
+        for lay2 in few_layouts((I8, I8, F8))[:2 if ctx.tier == 'quick' else 3]:
+            fr = zoo.frame_from_columns([column(I8, 4, nrows), column(I8, 5, nrows), column(F8, 6, nrows)], lay2, index=sf.Index(rl), columns=sf.Index(['u', 'v', 'w']))
+            containers.append(('frame:' + zoo.layout_str(lay2), fr, True))
+        fr_part = sf.Frame.from_fields([[70, 71, 72], [80, 81, 82]], index=[rl[1], 'q', rl[0]], columns=['u', 'v'])
+        containers.append(('frame-partial', fr_part, False))
+        for pos in range(m):
+            for after_ in (False, True):
+                for cname, cont, same_index in containers:
+                    rot += 1
+                    if ctx.tier == 'quick' and rot % 2 and not same_index:
+                        continue
+                    key = pos + (1 if after_ else 0)
+                    meth = 'insert_after' if after_ else 'insert_before'
+                    before = snapshot(f)
+                    out, err = call(lambda: getattr(f, meth)(cl[pos], cont, fill_value=-1))
+                    after = snapshot(f)
+                    if isinstance(cont, sf.Series):
+                        labels = [cont.name]
+                        cols = [aligned_cells(lit.array_vals(cont.values), list(cont.index.values), rl, -1)]
+                        ins_tb = f'[mk_block {lit.dtype(cont.dtype)} true [{lit.vlist(lit.array_vals(cont.values))}]]'
+                    else:
+                        labels = list(cont.columns.values)
+                        cols = [aligned_cells(lit.array_vals(c), list(cont.index.values), rl, -1) for c in frame_columns(cont)]
+                        ins_tb = tb_lit(cont)
+                    ctx.count(f'insert:{meth}', f'insert:container={cname.split(":")[0]}', 'outcome:' + ('ok' if err is None else lit.err_class(err)))
+                    obs = res_lit(out, err, ofl_lit)
+                    mterm = f'res_same ofl_eqb (M_frame_insert {flit} {lit.z(key)} {lit.vlist(labels)} {ins_tb}) {obs}' if same_index else None
+                    sterm = (f'S_frame_insert_ok {oflit} {lit.z(key)} {lit.vlist(labels)} {lit.lst([lit.vlist(c) for c in cols])} {oframe_lit(out)}'
+                             if err is None else 'false')
+                    yield Case(f'api:frame.{meth}',
+                               {'pool': pname, 'columns': m, 'layout': zoo.layout_str(layout), 'call': f'f.{meth}({cl[pos]!r}, {cname}, fill_value=-1)',
+                                'observed': 'raises ' + type(err).__name__ if err is not None else [lit.labels(out.columns), out.values.tolist()]},
+                               m=mterm, s=sterm, py_fail=None if before == after else f'receiver changed by {meth}',
+                               tags={'op': meth, 'container': cname.split(':')[0]})
+
+
+def names_of(obj):
+    import static_frame as sf
+    if isinstance(obj, sf.Series):
+        return (obj.name, obj.index.name)
+    return (obj.name, obj.index.name, obj.columns.name)
+
+
+def relabel_rename_cases(ctx):
+    import static_frame as sf
+    nrows = 3
+    for pname, dts, layout in label_frames(ctx, ms=(2, 4)):
+        m = len(dts)
+        f = build_frame(dts, nrows, layout)
+        f = f.rename(index='in', columns='cn')
+        oflit = oframe_lit(f)
+        rl, cl = list(f.index.values), list(f.columns.values)
+        relabels = [('index-mapping', dict(index={rl[0]: 'X', rl[2]: 'Z'}), [{rl[0]: 'X', rl[2]: 'Z'}.get(l, l) for l in rl], cl),
+                    ('columns-mapping', dict(columns={cl[-1]: 'LAST'}), rl, [{cl[-1]: 'LAST'}.get(l, l) for l in cl]),
+                    ('both-callable', dict(index=lambda l: l + l, columns=lambda l: l.upper()), [l + l for l in rl], [l.upper() for l in cl]),
+                    ('index-auto', dict(index=sf.IndexAutoFactory), list(range(nrows)), cl),
+                    ('columns-auto', dict(columns=sf.IndexAutoFactory), rl, list(range(m)))]
+        for rname, kwargs, new_rl, new_cl in relabels:
+            before = snapshot(f)
+            out, err = call(lambda: f.relabel(**kwargs))
+            after = snapshot(f)
+            want = f'(mk_oframe {lit.vlist(new_rl)} {lit.vlist(new_cl)} {cols_lit(f)} {lit.val(f.name)})'
+            ctx.count('relabel:' + rname)
+            py_fail = None if before == after else 'receiver changed by relabel'
+            if err is None and py_fail is None and zoo.layout_of(out) != zoo.layout_of(f):
+                py_fail = 'relabel changed the block layout'
+            yield Case('api:frame.relabel', {'pool': pname, 'columns': m, 'layout': zoo.layout_str(layout), 'call': f'f.relabel({rname})',
+                                             'observed': 'raises ' + type(err).__name__ if err is not None else [lit.labels(out.index), lit.labels(out.columns)]},
+                       s=f'res_agree oframe_eqb (Ok {want}) {res_lit(out, err, oframe_lit)}', py_fail=py_fail, tags={'op': 'relabel'})
+        renames = [('name', ('N2',), {}, ('N2', 'in', 'cn')), ('index', (), dict(index='I2'), ('nm', 'I2', 'cn')),
+                   ('columns', (), dict(columns='C2'), ('nm', 'in', 'C2')), ('all', ('N3',), dict(index='I3', columns='C3'), ('N3', 'I3', 'C3')),
+                   ('none-name', (None,), {}, (None, 'in', 'cn'))]
+        for rname, args, kwargs, want_names in renames:
+            before = snapshot(f)
+            out, err = call(lambda: f.rename(*args, **kwargs))
+            after = snapshot(f)
+            want = f'(mk_oframe {lit.vlist(rl)} {lit.vlist(cl)} {cols_lit(f)} {lit.val(want_names[0])})'
+            py_fail = None if before == after else 'receiver changed by rename'
+            if err is None and py_fail is None and names_of(out) != want_names:
+                py_fail = f'rename({rname}) gives names {names_of(out)}, expected {want_names}'
+            ctx.count('rename:' + rname)
+            yield Case('api:frame.rename', {'pool': pname, 'columns': m, 'layout': zoo.layout_str(layout), 'call': f'f.rename({rname})',
+                                            'observed': 'raises ' + type(err).__name__ if err is not None else list(names_of(out))},
+                       s=f'res_agree oframe_eqb (Ok {want}) {res_lit(out, err, oframe_lit)}', py_fail=py_fail, tags={'op': 'rename'})
+    # Series
+    for dt in (I8, F8, U2, OB):
+        sr = sf.Series(column(dt, 1, 4), index=sf.Index(ROW_LABELS[:4], name='in'), name='sn')
+        lab = list(sr.index.values)
+        for rname, arg, new_l in [('mapping', {lab[1]: 'Y2'}, [{lab[1]: 'Y2'}.get(l, l) for l in lab]), ('callable', lambda l: l * 2, [l * 2 for l in lab]),
+                                  ('auto', sf.IndexAutoFactory, list(range(4)))]:
+            before = snapshot(sr)
+            out, err = call(lambda: sr.relabel(arg))
+            after = snapshot(sr)
+            want = f'(mk_oseries {lit.vlist(new_l)} {lit.vlist(lit.array_vals(sr.values))} {lit.dtype(sr.dtype)} {lit.val(sr.name)})'
+            ctx.count('relabel:series-' + rname)
+            yield Case('api:series.relabel', {'dtype': str(dt), 'call': f's.relabel({rname})', 'observed': 'raises ' + type(err).__name__ if err is not None else lit.labels(out.index)},
+                       s=f'res_agree oseries_eqb (Ok {want}) {res_lit(out, err, lit.oseries)}',
+                       py_fail=None if before == after else 'receiver changed by relabel', tags={'op': 'relabel', 'container': 'series'})
+        for rname, args, kwargs, want_names in [('name', ('N2',), {}, ('N2', 'in')), ('index', (), dict(index='I2'), ('sn', 'I2')), ('both', ('N3',), dict(index='I3'), ('N3', 'I3'))]:
+            before = snapshot(sr)
+            out, err = call(lambda: sr.rename(*args, **kwargs))
+            after = snapshot(sr)
+            want = f'(mk_oseries {lit.vlist(lab)} {lit.vlist(lit.array_vals(sr.values))} {lit.dtype(sr.dtype)} {lit.val(want_names[0])})'
+            py_fail = None if before == after else 'receiver changed by rename'
+            if err is None and py_fail is None and names_of(out) != want_names:
+                py_fail = f'rename gives names {names_of(out)}, expected {want_names}'
+            ctx.count('rename:series-' + rname)
+            yield Case('api:series.rename', {'dtype': str(dt), 'call': f's.rename({rname})', 'observed': 'raises ' + type(err).__name__ if err is not None else list(names_of(out))},
+                       s=f'res_agree oseries_eqb (Ok {want}) {res_lit(out, err, lit.oseries)}', py_fail=py_fail, tags={'op': 'rename', 'container': 'series'})
+
+
+# ---------------------------------------------------------------------------------------------- Series
+def series_keys(n, ctx):
+    if ctx.tier == 'thorough':
+        vals = [None] + list(range(-6, 7))
+        out = [K('slice', (a, b, c)) for a, b, c in itertools.product(vals, vals, (None, 1, 2, 3, -1, -2, -3))]
+    else:
+        out = list(slice_grid(n, 4))
+    out += [ALL] + [K('int', i) for i in range(-n, n)]
+    seqs = [p for r in range(0, n + 1) for p in itertools.permutations(range(n), r)]
+    if len(seqs) > 24:
+        seqs = seqs[:8] + ctx.rng.sample(seqs[8:], 16)
+    out += [K('list', list(p)) for p in seqs]
+    out += [K('array', [x - n if i % 2 else x for i, x in enumerate(p)]) for p in seqs[2::3]]
+    out += [K('mask', list(mk)) for mk in itertools.product((False, True), repeat=n)]
+    return out
+
+
+def series_cases(ctx):
+    import static_frame as sf
+    rot = 0
+    for n in range(0, 5):
+        for dt in (((I8, U2) if n == 4 else (I8,)) if ctx.tier == 'quick' else (I8, F8, U2, OB, B1)):
+            sr = sf.Series(column(dt, 2, n), index=sf.Index(ROW_LABELS[:n]), name='sn')
+            slit = lit.oseries(sr)
+            labels = list(sr.index.values)
+            for k in series_keys(n, ctx):
+                ps = k.positions(n)
+                if ps is None:
+                    continue
+                rot += 1
+                forms = [('iloc', lambda obj, kk=k: obj.iloc[kk.py()])]
+                lk = loc_key(k, labels, reorder=(rot % 2 == 1)) if not has_negative(k) else None
+                if lk is not None or k.kind == 'all':
+                    forms.append(('loc', lambda obj, lk=lk: obj.loc[lk]))
+                    forms.append(('getitem', lambda obj, lk=lk: obj[lk]))
+                if ctx.tier == 'quick':
+                    forms = forms[rot % len(forms):][:1]
+                for form, sel in forms:
+                    ops = [('drop', None, None), ('mask', None, None)]
+                    e = ELEMS[rot % len(ELEMS)]
+                    ops.append(('assign', ('element', e), aval_elem(e)))
+                    if k.kind != 'int' and ps:
+                        arr = np.arange(len(ps), dtype=np.int64) + 300
+                        ops.append(('assign', ('array', arr), '(AMat ' + lit.lst([lit.vlist(arr.tolist())]) + ')'))
+                        idx = [labels[i] for i in ps][1:][::-1] + ['q']
+                        sv = sf.Series([400 + i for i in range(len(idx))], index=idx)
+                        ops.append(('assign', ('series', sv), f'(ARows {lit.vlist(idx)} {lit.vlist(lit.array_vals(sv.values))})'))
+                        ops.append(('assign', ('apply', None), None))
+                    for op, val, aval in (ops if ctx.tier == 'thorough' else [ops[0], ops[1], ops[2 + rot % (len(ops) - 2)]]):
+                        before = snapshot(sr)
+                        if op in ('drop', 'mask'):
+                            out, err = call(lambda: sel(getattr(sr, op)))
+                        elif val[0] == 'apply':
+                            func = lambda x: x * 2 if dt in (I8, F8) else x
+                            picked = sr.iloc[k.py()]
+                            aval = f'(ARows {lit.vlist(lit.labels(picked.index))} {lit.vlist(lit.array_vals(func(picked).values))})'
+                            out, err = call(lambda: sel(sr.assign).apply(func))
+                        elif val[0] == 'series':
+                            out, err = call(lambda: sel(sr.assign)(val[1], fill_value=-1))
+                        else:
+                            out, err = call(lambda: sel(sr.assign)(val[1]))
+                        after = snapshot(sr)
+                        ctx.count(f'series.{op}:k={k.kind}', f'series.{op}:form={form}', 'outcome:' + ('ok' if err is None else lit.err_class(err)))
+                        obs = res_lit(out, err, lit.oseries)
+                        if op == 'drop':
+                            sterm = f'res_agree oseries_eqb (S_series_drop {slit} (Some {k.coq()})) {obs}'
+                        elif op == 'mask':
+                            sterm = f'res_agree oseries_eqb_noname (S_series_mask {slit} {k.coq()}) {obs}'
+                        else:
+                            fill = '(VInt (-1))' if val[0] == 'series' else 'VNaN'
+                            sterm = f'S_series_assign_ok {slit} {k.coq()} {aval} {fill} {lit.oseries(out)}' if err is None else 'false'
+                        yield Case(f'api:series.{op}.{form}',
+                                   {'dtype': str(dt), 'length': n, 'call': f's.{op}.{form}[key]' + ('' if val is None else f'({val[0]})'), 'key': k.desc(),
+                                    'observed': 'raises ' + type(err).__name__ if err is not None else [lit.labels(out.index), out.values.tolist()]},
+                                   s=sterm, py_fail=None if before == after else f'receiver changed by s.{op}',
+                                   tags={'op': op, 'form': form, 'container': 'series', 'kind': k.kind}, nontrivial=bool(ps))
+            # astype, insert
+            if n == 0:
+                continue
+            for dst in ASTYPE_TARGETS:
+                if not astype_ok(dt, dst):
+                    continue
+                before = snapshot(sr)
+                out, err = call(lambda: sr.astype(dst))
+                after = snapshot(sr)
+                want = f'(mk_oseries {lit.vlist(labels)} (map (conv_val {lit.dtype(dst)}) {lit.vlist(lit.array_vals(sr.values))}) {lit.dtype(dst)} {lit.val(sr.name)})'
+                ctx.count('series.astype')
+                yield Case('api:series.astype', {'dtype': str(dt), 'length': n, 'call': f's.astype({dst})', 'observed': 'raises ' + type(err).__name__ if err is not None else str(out.dtype)},
+                           s=f'res_agree oseries_eqb (Ok {want}) {res_lit(out, err, lit.oseries)}',
+                           py_fail=None if before == after else 'receiver changed by s.astype', tags={'op': 'astype', 'container': 'series'})
+            ins = sf.Series([91, 92], index=['i1', 'i2'])
+            for pos in range(n):
+                for meth, key in (('insert_before', pos), ('insert_after', pos + 1)):
+                    before = snapshot(sr)
+                    out, err = call(lambda: getattr(sr, meth)(labels[pos], ins))
+                    after = snapshot(sr)
+                    ctx.count('series.' + meth)
+                    sterm = f'S_series_insert_ok {slit} {lit.z(key)} {lit.vlist(["i1", "i2"])} {lit.vlist([91, 92])} {lit.oseries(out)}' if err is None else 'false'
+                    yield Case(f'api:series.{meth}', {'dtype': str(dt), 'length': n, 'call': f's.{meth}({labels[pos]!r}, Series)',
+                                                       'observed': 'raises ' + type(err).__name__ if err is not None else [lit.labels(out.index), out.values.tolist()]},
+                               s=sterm, py_fail=None if before == after else f'receiver changed by s.{meth}', tags={'op': meth, 'container': 'series'})
+
+
+# ---------------------------------------------------------------------------------------------- malformed keys / values
+def malformed_cases(ctx):
+    """inputs outside the domain: out-of-range positions, absent labels, wrong mask length, step 0, value of the wrong
+    shape -- the call must raise and leave the receiver as it was (the specification says Err too)"""
+    nrows = 3
+    for pname, dts, layout in label_frames(ctx, ms=(2, 4)):
+        m = len(dts)
+        f = build_frame(dts, nrows, layout)
+        oflit = oframe_lit(f)
+        bad_col = [K('int', m), K('int', -m - 1), K('list', [0, m]), K('list', [-m - 1]), K('mask', [True] * (m + 1)), K('slice', (None, None, 0))]
+        bad_row = [K('int', nrows), K('list', [nrows]), K('mask', [True] * (nrows + 1))]
+        plans = [(rk, ck) for ck in bad_col for rk in (NONE, ALL)] + [(rk, ck) for rk in bad_row for ck in (NONE, K('int', 0))]
+        for rk, ck in plans:
+            for op in ('drop', 'mask', 'assign'):
+                if rk.kind == 'none' and ck.kind == 'none':
+                    continue
+                key = rk.py() if ck.kind == 'none' else (rk.py(), ck.py())
+                before = snapshot(f)
+                if op == 'assign':
+                    out, err = call(lambda: f.assign.iloc[key](0))
+                else:
+                    out, err = call(lambda: getattr(f, op).iloc[key])
+                after = snapshot(f)
+                ctx.count(f'malformed:{op}', 'outcome:' + ('ok' if err is None else lit.err_class(err)))
+                if op == 'drop':
+                    sterm = f'res_agree oframe_eqb (S_frame_drop {oflit} {rk.ocoq()} {ck.ocoq()}) {res_lit(out, err, oframe_lit)}'
+                elif op == 'mask':
+                    sterm = f'res_agree oframe_eqb_noname (S_frame_mask {oflit} {rk.ocoq()} {ck.ocoq()}) {res_lit(out, err, oframe_lit)}'
+                else:
+                    sterm = 'true' if err is not None else f'S_frame_assign_ok {oflit} {rk.ocoq()} {ck.ocoq()} (AElem (VInt 0)) VNaN {oframe_lit(out)}'
+                yield Case(f'malformed:frame.{op}.iloc',
+                           {'pool': pname, 'columns': m, 'layout': zoo.layout_str(layout), 'call': f'f.{op}.iloc[{key!r}]', 'observed': 'raises ' + type(err).__name__ if err is not None else 'returns'},
+                           s=sterm, py_fail=None if before == after else f'receiver changed by a failing f.{op}', tags={'op': op, 'malformed': True, 'ckind': ck.kind, 'rkind': rk.kind})
+        # absent labels
+        for key in ['nope', ['a', 'nope'], slice('a', 'nope')]:
+            for op in ('drop', 'mask', 'assign'):
+                before = snapshot(f)
+                out, err = call((lambda: f.assign[key](0)) if op == 'assign' else (lambda: getattr(f, op)[key]))
+                after = snapshot(f)
+                ctx.count(f'malformed:{op}-label', 'outcome:' + ('ok' if err is None else lit.err_class(err)))
+                py_fail = None if before == after else f'receiver changed by a failing f.{op}'
+                if err is None:
+                    py_fail = py_fail or f'f.{op}[{key!r}] accepted an absent label'
+                yield Case(f'malformed:frame.{op}.getitem', {'pool': pname, 'columns': m, 'call': f'f.{op}[{key!r}]', 'observed': 'raises ' + type(err).__name__ if err is not None else 'returns'},
+                           py_fail=py_fail, tags={'op': op, 'malformed': True})
+        # a value that cannot be broadcast to the selection
+        for key, value in [((slice(None), [0, 1]), np.arange(3 * 3).reshape(3, 3)), ((0, slice(None)), np.arange(m + 1)), ((slice(None), 0), np.arange(nrows + 1))]:
+            before = snapshot(f)
+            out, err = call(lambda: f.assign.iloc[key](value))
+            after = snapshot(f)
+            ctx.count('malformed:assign-shape', 'outcome:' + ('ok' if err is None else lit.err_class(err)))
+            # a value wider than the selection is accepted (a prefix of it is used): outside the property's quantifier;
+            # only "the receiver is left as it was" is demanded here
+            py_fail = None if before == after else 'receiver changed by f.assign with a value of the wrong shape'
+            yield Case('malformed:frame.assign.value-shape', {'pool': pname, 'columns': m, 'call': f'f.assign.iloc[{key!r}](array{value.shape})',
+                                                              'observed': 'raises ' + type(err).__name__ if err is not None else out.values.tolist()},
+                       py_fail=py_fail, tags={'op': 'assign', 'malformed': True, 'shape': True})
+
+
+# ---------------------------------------------------------------------------------------------- random stream of bigger frames
+def random_cases(ctx):
+    rng = ctx.rng
+    kinds = [I8, F8, B1, U2, OB]
+    for _ in range(ctx.n(120, 1500)):
+        m = rng.randint(3, 7)
+        nrows = rng.randint(1, 5)
+        # dtypes in runs, so that multi-column blocks are possible
+        dts = []
+        while len(dts) < m:
+            dts += [rng.choice(kinds)] * rng.randint(1, 3)
+        dts = tuple(dts[:m])
+        lays = list(zoo.layouts_for(dts))
+        layout = rng.choice(lays)
+        f = build_frame(dts, nrows, layout)
+        flit, oflit = mframe_lit(f), oframe_lit(f)
+
+        def rand_key(n):
+            kind = rng.choice(['int', 'slice', 'list', 'mask', 'all', 'array'])
+            if kind == 'int':
+                return K('int', rng.randrange(n))
+            if kind == 'slice':
+                return K('slice', (rng.choice([None] + list(range(-n - 1, n + 2))), rng.choice([None] + list(range(-n - 1, n + 2))), rng.choice([None, 1, 2, -1, -2, 3, -3])))
+            if kind in ('list', 'array'):
+                return K(kind, rng.sample(range(n), rng.randint(0, n)))
+            if kind == 'mask':
+                return K('mask', [rng.random() < 0.5 for _ in range(n)])
+            return ALL
+        ck, rk = rand_key(m), rng.choice([NONE, rand_key(nrows)])
+        cps, rps = ck.positions(m), (rk.positions(nrows) if rk.kind != 'none' else list(range(nrows)))
+        op = rng.choice(['drop', 'mask', 'assign', 'assign', 'astype'])
+        key = (rk.py(), ck.py())
+        before = snapshot(f)
+        tags = {'op': op, 'form': 'iloc', 'ckind': ck.kind, 'rkind': rk.kind, 'random': True}
+        if op == 'astype':
+            lk = loc_key(ck, list(f.columns.values)) if not has_negative(ck) else None
+            dst = rng.choice([d for d in ASTYPE_TARGETS if all(astype_ok(dts[j], d) for j in cps)])
+            if (lk is None and ck.kind != 'all') or (ck.kind == 'mask' and sum(ck.v) != 1):
+                ck = K('list', sorted(cps))
+                lk = loc_key(ck, list(f.columns.values))
+            key = lk
+            out, err = call(lambda: f.astype[lk](dst, consolidate_blocks=False))
+            obs = res_lit(out, err, ofl_lit)
+            mterm = f'res_same ofl_eqb (M_frame_astype {flit} {ck.coq()} {lit.dtype(dst)}) {obs}'
+            sterm = f'res_agree of_eqb_ofl (S_frame_astype {oflit} {ck.coq()} {lit.dtype(dst)}) {obs}'
+        elif op == 'assign':
+            vals = list(unit_values(rk, ck, rps, sorted(cps), rng.randrange(100)))
+            vname, value, aval, sliceable = rng.choice(vals)
+            if vname != 'element' and ck.kind in ('list', 'array') and sorted(cps) != cps:
+                vname, value, aval, sliceable = vals[0]
+            out, err = call(lambda: f.assign.iloc[key](value))
+            tags.update(assign_tags('iloc', ck, rk, m, ck.kind == 'mask'))
+            obs = res_lit(out, err, ofl_lit)
+            mterm = (f'res_same ofl_same (M_frame_assign_unit {flit} {rk.ocoq()} {ck.ocoq()} {lit.b(ck.kind in ("array", "mask"))} '
+                     f'{lit.b(ck.kind != "int")} {lit.b(sliceable)} {aval} {vdt_lit(value)} {RESOLVE}) {obs}')
+            sterm = f'S_frame_assign_ok {oflit} {rk.ocoq()} {ck.ocoq()} {aval} VNaN {oframe_lit(out)}' if err is None else 'false'
+        else:
+            out, err = call(lambda: getattr(f, op).iloc[key])
+            tags.update(classify(op, ck, rk, m, nrows))
+            obs = res_lit(out, err, ofl_lit)
+            if op == 'drop':
+                mterm = f'res_same ofl_eqb (M_frame_drop {flit} {rk.ocoq()} {ck.ocoq()}) {obs}'
+                sterm = f'res_agree of_eqb_ofl (S_frame_drop {oflit} {rk.ocoq()} {ck.ocoq()}) {obs}'
+            else:
+                mterm = f'res_same ofl_eqb_noname (M_frame_mask {flit} {rk.ocoq()} {ck.ocoq()}) {obs}'
+                sterm = f'res_agree of_eqb_ofl_noname (S_frame_mask {oflit} {rk.ocoq()} {ck.ocoq()}) {obs}'
+        after = snapshot(f)
+        ctx.count(f'random:{op}', f'random:columns={m}', f'random:blocks={len(layout)}')
+        yield Case(f'api:random.{op}.iloc',
+                   {'dtypes': [str(d) for d in dts], 'rows': nrows, 'layout': zoo.layout_str(layout), 'call': f'f.{op}.iloc[{key!r}]',
+                    'observed': 'raises ' + type(err).__name__ if err is not None else out.values.tolist()},
+                   m=mterm, s=sterm, py_fail=None if before == after else f'receiver changed by f.{op}', tags=tags)
+
+
 # ---------------------------------------------------------------------------------------------- kernels
 def kernel_cases(ctx):
     from static_frame.core.util import slice_to_ascending_slice
     from static_frame.core.type_blocks import TypeBlocks
-    R = 4 if ctx.tier == 'quick' else 7
+    R = 3 if ctx.tier == 'quick' else 7
     vals = [None] + list(range(-R, R + 1))
     steps = [None, -3, -2, -1, 1, 2, 3]
     for start, stop, step in itertools.product(vals, vals, steps):
@@ -554,3 +1441,13 @@ def cases(ctx):
     yield from kernel_cases(ctx)
     yield from drop_mask_cases(ctx)
     yield from assign_unit_cases(ctx)
+    yield from assign_labelled_cases(ctx)
+    yield from assign_forms_cases(ctx)
+    yield from assign_bloc_cases(ctx)
+    yield from drop_mask_forms_cases(ctx)
+    yield from astype_cases(ctx)
+    yield from insert_cases(ctx)
+    yield from relabel_rename_cases(ctx)
+    yield from series_cases(ctx)
+    yield from malformed_cases(ctx)
+    yield from random_cases(ctx)
